@@ -373,11 +373,11 @@ class Docs:
             d = {}
             for k in props:
                 ps = self.resolve(props[k])
-                present = k in req or (not minimal and rng.random() < 0.6 and depth <= self.depth_limit)
+                present = k in req or (not minimal and (getattr(self, "maximal", False) or rng.random() < 0.6) and depth <= self.depth_limit)
                 if present:
                     d[k] = self.valid(props[k], depth + 1, minimal)
             ap = s.get("additionalProperties")
-            if ap is not None and ap is not False and not minimal and rng.random() < 0.7:
+            if ap is not None and ap is not False and not minimal and (getattr(self, "maximal", False) or rng.random() < 0.7):
                 for i in range(rng.randint(1, 2)):
                     d["extra%d" % i] = self.valid(ap, depth + 1, minimal)
             if not props and ap is None and not minimal:
